@@ -47,6 +47,10 @@ def _constraint(rso, x, kind, n):
         return rso.power(x[0], 3) <= r ** 3
     if kind == 'exp':
         return rso.exp(x) <= math.exp(r)
+    if kind == 'softplus':
+        return rso.softplus(-1.0 * x[0]) <= r
+    if kind == 'pnorm25':
+        return rso.pnorm(x, 2.5) <= r
     raise ValueError(kind)
 
 
@@ -69,10 +73,19 @@ def run(front, obj, hist, incremental):
     st = (lambda c: m.st(c))
     st([x >= -3, x <= 3]) if front != 'ro' else m.st(x >= -3, x <= 3)
     _objective(rso, m, x, obj)
-    conic = obj not in ('lin', 'abs') or any(h['kind'] not in ('lin', 'abs', '') for h in hist)
+    conic = obj not in ('lin', 'abs') or any(h['kind'] not in ('lin', 'abs', 'newvar', '') for h in hist)
     vals, n = [], 0
     for h in hist:
-        if h['act'] == 'add':
+        if h['act'] == 'add' and h['kind'] == 'newvar':
+            # a variable declared late (after a formulation, in the incremental build) whose whole range matters: the
+            # objective wants x[0] small, x[0] + 3 >= max(v, -2v) is loosest at v = 0
+            n += 1
+            v = m.dvar()
+            st(v >= -5) if front != 'ro' else m.st(v >= -5)
+            st(v <= 5) if front != 'ro' else m.st(v <= 5)
+            st(x[0] + 3 >= v) if front != 'ro' else m.st(x[0] + 3 >= v)
+            st(x[0] + 3 >= -2 * v) if front != 'ro' else m.st(x[0] + 3 >= -2 * v)
+        elif h['act'] == 'add':
             n += 1
             st(_constraint(rso, x, h['kind'], n))
         elif incremental:
